@@ -10,7 +10,9 @@
                                          ([effect_sequenced] false: some argument or codata binding
                                          has an effect, so the order of effects is not fixed by the
                                          source semantics),
-        VIOL class=mistyped-goto-unbound when the Core run is stuck on an identifier that is unbound or bound
+        VIOL class=mistyped-goto-unbound (REPAIRED in /repo by 126604b, no longer a known finding: a
+                                         recurrence is a plain VIOLATION; the tag only describes it)
+                                         when the Core run is stuck on an identifier that is unbound or bound
                                          to a value of the wrong kind (the spurious parameter picks up an
                                          unrelated variable of the same name) and the source has a goto
                                          whose annotation differs from its label's type,
@@ -109,8 +111,8 @@ Definition fun2core_case (i r : sexp) : verdict :=
                       | inl (what, core_unbound) =>
                           if negb (effect_sequenced p) then VSkip ("unsequenced-mismatch " ++ name ++ " " ++ what)
                           else
-                          VViol ((if core_unbound && goto_type_mismatch_prog p then "class=mistyped-goto-unbound " else
-                                  if shadowing_risk_prog p then "class=capture-under-binder " else
+                          VViol ((if shadowing_risk_prog p then "class=capture-under-binder " else
+                                  if core_unbound && goto_type_mismatch_prog p then "class=mistyped-goto-unbound " else
                                   "class=semantic-mismatch ")
                                  ++ name ++ " " ++ what)
                       | inr ncmp =>
